@@ -172,6 +172,17 @@ def write_json(path, obj):
     os.replace(tmp, path)
 
 
+def exc_in_lark(tb_text):
+    """True when the innermost frame of a formatted traceback lies in lark's source (as opposed to the harness)."""
+    import re
+    files = re.findall(r'File "([^"]+)"', tb_text or '')
+    return bool(files) and ('/lark/' in files[-1]) and '/harness/' not in files[-1]
+
+
+class InfraError(Exception):
+    pass
+
+
 def load_known_findings():
     p = VERIF / 'known_findings.json'
     if not p.exists():
